@@ -35,6 +35,8 @@ pub mod c15;
 pub mod c16;
 pub mod vsock_ref;
 pub mod c17;
+pub mod c18;
+pub mod c19;
 pub mod replay;
 
 pub use engine::chooser::{choose, deviate};
